@@ -103,7 +103,7 @@ Section Cells.
     cell (fst (a_mget unit av hs excl eids m i S)) s j =
       if N.eq_dec i j then m_cell_eff m i s (cell S s i) else cell S s j.
   Proof.
-    induction m as [sid|sid touch d| |l|sid|m IH|sid mode selmod selrem d others|k mode d|sid]; intros S s j; cbn [a_mget m_cell_eff].
+    induction m as [sid|sid touch d| |l|sid|m IH|sid mode selmod selrem d others|k mode d|sid|bop ba bb]; intros S s j; cbn [a_mget m_cell_eff].
     - pose proof (a_jact_quiet S sid (JRead i) s j eq_refl) as Q. destruct (a_jact unit S sid (JRead i)) as [S1 t]. cbn [fst] in *.
       rewrite Q. destruct (N.eq_dec i j) as [<-|]; reflexivity.
     - pose proof (a_jact_cell S sid (JAccess i touch d) s j) as Q. destruct (a_jact unit S sid _) as [S1 t]. cbn [fst act_idx act_eff] in *.
@@ -134,6 +134,7 @@ Section Cells.
       + unfold cell. cbn [as_fail as_st]. destruct (N.eq_dec i j) as [<-|]; reflexivity.
     - pose proof (a_jact_cell S sid (JRemove i) s j) as Q. destruct (a_jact unit S sid _) as [S1 t]. cbn [fst act_idx act_eff] in *.
       rewrite Q. destruct (N.eq_dec sid s) as [<-|]; destruct (N.eq_dec i j) as [<-|]; reflexivity.
+    - destruct (N.eq_dec i j) as [<-|]; reflexivity.
   Qed.
 
   Definition members_eff (ms : list member) (i s : N) (v : option tok) : option tok :=
